@@ -13,6 +13,7 @@ import Aqv.Lemmas.VmMain
 import Aqv.Lemmas.VmMemAccess
 import Aqv.Lemmas.VmPrecompile
 import Aqv.Lemmas.VmConv
+import Aqv.Lemmas.VmStatic
 import Aqv.Lemmas.Translated.VmNat
 import Aqv.Lemmas.Translated.VmPre
 namespace Aqv.Props.C07
@@ -314,6 +315,37 @@ example : (topCall envSpring (oStore 0x00) 30001 .static 30000 false db0).out = 
 theorem static_unenforced_without_byzantium_witness :
     (topCall envSpringPre7 (oStore 0x00) 30001 .static 30000 false db0).out = .ok ∧
     (topCall envSpringPre7 (oStore 0x00) 30001 .static 30000 false db0).db.cur = 1 := by decide
+
+/-- `static_subtree_readonly`: no state-changing operation executes under a STATICCALL at any depth. Every step executed
+    anywhere below a StaticCall frame — in the frame itself and in every frame it reaches through any nesting of CALL, CALLCODE,
+    DELEGATECALL, STATICCALL and CREATE — runs with interpreter.readOnly = true (the flag is inherited by every callee and
+    survives every return: `run_ro`, by induction over the call tree), and therefore, under Byzantium rules, is neither SSTORE,
+    LOGn, SELFDESTRUCT, CREATE nor a value-bearing CALL. For every program, caller flag, depth and gas. -/
+theorem static_subtree_readonly (env : Env) (hE : EnvOK env) (o : Nat → StepIn W) (fuel : Nat) (i : StepIn W)
+    (depth : Nat) (ro : Bool) (gas : Nat) (valueNZ : Bool) (db : Db W) (t : Nat) (hw : db.WF) (hg : gas < two64) :
+    ∀ e ∈ (callWrap env (run env o fuel) .static i depth ro gas valueNZ db t).trace,
+      e.ro = true ∧ (env.byzantium = true → e.writesWorld = false) := by
+  intro e he
+  have hro := callWrap_ro (env := env) (run_ro env o fuel) .static i depth ro gas valueNZ db t (by simp) e he
+  exact ⟨hro, fun hb => static_no_write env hE o fuel .static i depth ro gas valueNZ db t hw hg e he hb hro⟩
+
+/-- StaticCall → 7×PUSH, CALL (value 0) → callee: PUSH PUSH SSTORE; then the caller STOPs -/
+def oNested : Nat → StepIn Nat := fun t =>
+  match t with
+  | 0 => { op := 0, args := [] }
+  | 8 => { op := 0xf1, args := [50000, 0xbb, 0, 0, 0, 0, 0] }
+  | 11 => { op := 0x55, args := [], sstoreKind := 0, eff := fun w => w + 1 }
+  | n => if n < 12 then { op := 0x60, args := [] } else { op := 0x00, args := [] }
+
+-- the SSTORE two frames below the StaticCall is refused; both frames ran read-only; the world is untouched
+example : ((topCall envSpring oNested 100001 .static 100000 false db0).trace.map (fun e => (e.depth, e.op, e.ro))) =
+    [(1, 0x60, true), (1, 0x60, true), (1, 0x60, true), (1, 0x60, true), (1, 0x60, true), (1, 0x60, true), (1, 0x60, true),
+     (1, 0xf1, true), (2, 0x60, true), (2, 0x60, true), (1, 0x00, true)] := by decide
+example : (topCall envSpring oNested 100001 .static 100000 false db0).out = .ok ∧
+          (topCall envSpring oNested 100001 .static 100000 false db0).db.cur = 0 := by decide
+-- the same program entered by a plain Call writes (so the theorem is about the static subtree, not vacuous)
+set_option maxRecDepth 8192 in
+example : (topCall envSpring oNested 100001 .call 100000 false db0).db.cur = 1 := by decide
 
 /-! ## depth -/
 
